@@ -35,8 +35,8 @@ ByteVal(p, h, V, addr) ==
    IF p[1] = 0 THEN MemByte(V, Zero(16), addr)
    ELSE LET a == SP!StoreOf(h, p[1]) IN
         IF a.vk = "c" THEN ConstByte(p[1], p[2]) ELSE IdVal(V, SymName(p[1]), a.w)[p[2]]
-ExpectedBytes(h, j, V) ==
-   LET p == SP!Expected(h, j) IN
+\* bytes a load of provenance p (SymMem!Expected) at action h[j] must return under V
+ExpectedBytes(h, j, p, V) ==
    TLCEval([i \in 1..Len(p) |-> ByteVal(p[i], h, V, AddrOf(h[j].b, h[j].off + i - 1, V))])
 
 \* ---- projected pool ---------------------------------------------------------
@@ -66,14 +66,17 @@ PoolStruct(cells, V, written) ==
 LoadIdx(h) == {j \in 1..Len(h) : h[j].op = "ld"}
 LoadBad(rec, j) ==
    LET h == rec.acts t == rec.obs[j]
+       p == SP!Expected(h, j)
        path == SP!LoadPath(SP!PoolAfter(h, 1, j - 1, {}), h[j].b, h[j].off, h[j].w \div 8) IN
    IF t.k = "aff" \/ ~WellTyped(t) THEN <<[clause |-> "C07.welltyped", j |-> j, path |-> path]>>
    ELSE IF Width(t) # h[j].w THEN <<[clause |-> "C07.width", j |-> j, path |-> path, got |-> Width(t)]>>
-   ELSE LET bad == {e \in 1..Len(rec.envs) : Norm(Eval(t, rec.envs[e]), h[j].w) # ExpectedBytes(h, j, rec.envs[e])} IN
+   ELSE LET bad == {e \in 1..Len(rec.envs) : Norm(Eval(t, rec.envs[e]), h[j].w) # ExpectedBytes(h, j, p, rec.envs[e])} IN
         IF bad = {} THEN <<>>
         ELSE LET e == CHOOSE e \in bad : \A f \in bad : e <= f IN
              <<[clause |-> "C07.value", j |-> j, path |-> path, env |-> e, nbad |-> Cardinality(bad),
-                got |-> Norm(Eval(t, rec.envs[e]), h[j].w), want |-> ExpectedBytes(h, j, rec.envs[e])]>>
+                got |-> Norm(Eval(t, rec.envs[e]), h[j].w), want |-> ExpectedBytes(h, j, p, rec.envs[e])]>>
+\* the projected pool after the last action: typed cells, no overlap, cells cover exactly the written bytes
+\* (structure, under the first valuation), flattened values = concrete memory (every valuation)
 HPoolBad(rec) ==
    LET h == rec.acts cells == rec.cells m == SP!Replay(h, Len(h)) IN
    IF \E i \in 1..Len(cells) : ~CellTyped(cells[i]) THEN <<[clause |-> "C07.pool_welltyped"]>>
@@ -81,13 +84,15 @@ HPoolBad(rec) ==
    ELSE LET V1 == rec.envs[1]
             st == PoolStruct(cells, V1, {AddrOf(x[1], x[2], V1) : x \in DOMAIN m}) IN
         IF st # <<>> THEN st
-        ELSE LET badv == {e \in 1..Len(rec.envs) : \E i \in 1..Len(cells) :
+        ELSE LET \* the SymMem key <<b, off>> at which each cell starts (exists: the structure check passed)
+                 key == TLCEval([i \in 1..Len(cells) |->
+                           CHOOSE x \in DOMAIN m : AddrOf(x[1], x[2], V1) = Norm(Eval(cells[i].a, V1), AddrW)])
+                 badv == {e \in 1..Len(rec.envs) : \E i \in 1..Len(cells) :
                             LET V == rec.envs[e]
                                 val == Norm(Eval(cells[i].v, V), cells[i].w)
-                                a0 == Norm(Eval(cells[i].a, V), AddrW)
-                                keys == {x \in DOMAIN m : Dist(AddrOf(x[1], x[2], V), a0) \in 0..(cells[i].w \div 8 - 1)}
-                            IN \E x \in keys : LET addr == AddrOf(x[1], x[2], V) IN
-                                                val[Dist(addr, a0) + 1] # ByteVal(m[x], h, V, addr)} IN
+                            IN \/ Norm(Eval(cells[i].a, V), AddrW) # AddrOf(key[i][1], key[i][2], V)
+                               \/ \E k \in 1..(cells[i].w \div 8) :
+                                     val[k] # ByteVal(m[<<key[i][1], key[i][2] + k - 1>>], h, V, AddrOf(key[i][1], key[i][2] + k - 1, V))} IN
              IF badv = {} THEN <<>> ELSE <<[clause |-> "C07.pool_value", env |-> CHOOSE e \in badv : \A f \in badv : e <= f]>>
 RECURSIVE CatLoads(_,_)
 CatLoads(rec, js) == IF js = {} THEN <<>> ELSE LET j == CHOOSE j \in js : \A k \in js : j <= k IN LoadBad(rec, j) \o CatLoads(rec, js \ {j})
@@ -112,10 +117,17 @@ OutputTrees(rec) == {rec.regs[i].e : i \in 1..Len(rec.regs)} \cup {rec.rbs[i].r 
 MaxW(a, b) == IF a > b THEN a ELSE b
 \* memory reads in the sources of an instruction (for the classification of a failing program)
 SrcMems(affs) == UNION {{m \in SubTerms(affs[j].a[2]) : m.k = "mem"} : j \in 1..Len(affs)}
+\* states at the start of every iteration of the last instruction (one state unless it is rep-prefixed)
+RECURSIVE RepStates(_,_,_,_)
+RepStates(affs, rep, s, n) ==
+   IF RepDone(s) \/ n >= RepBound THEN {}
+   ELSE LET r == RepStep(affs, rep, s) IN {s} \cup (IF r.stop THEN {} ELSE RepStates(affs, rep, r.s, n + 1))
 LastPaths(rec, V, s0) ==
    LET n == Len(rec.instrs)
+       ins == rec.instrs[n]
        pre == Before(rec.instrs, n, s0)
-   IN {PathAt(rec.cells_bl, V, Norm(Eval(m.a[1], pre), AddrW), m.w \div 8) : m \in SrcMems(rec.instrs[n].affs)}
+       sts == IF ins.rep = "" THEN {pre} ELSE RepStates(ins.affs, ins.rep, pre, 0)
+   IN UNION {{PathAt(rec.cells_bl, V, Norm(Eval(m.a[1], st), AddrW), m.w \div 8) : m \in SrcMems(ins.affs)} : st \in sts}
 \* everything that disagrees under valuation e (index sets into regs / rbs / cells), restricted to the typed items
 EnvRes(rec, e, okreg, okrb, cellsok) ==
    LET V == rec.envs[e]
@@ -173,13 +185,14 @@ PVerdict(rec) ==
             illreg == {i \in 1..Len(rec.regs) : rec.regs[i].e.k = "aff" \/ ~WellTyped(rec.regs[i].e)}
             illcell == {i \in 1..Len(rec.cells) : ~CellTyped(rec.cells[i])}
             widcell == {i \in (1..Len(rec.cells)) \ illcell : Width(rec.cells[i].v) # rec.cells[i].w}
-        IN (IF illrb = {} THEN <<>> ELSE <<[clause |-> "C07.welltyped", what |-> "readback", rb |-> MinOf(illrb),
+            lp == LastPaths(rec, rec.envs[1], InitState(rec.pool0, rec.envs[1]))
+        IN (IF illrb = {} THEN <<>> ELSE <<[clause |-> "C07.welltyped", what |-> "readback", rb |-> MinOf(illrb), lastpaths |-> lp,
                                            path |-> RbPath(rec, MinOf(illrb)), paths |-> {RbPath(rec, k) : k \in illrb}]>>)
-        \o (IF widrb = {} THEN <<>> ELSE <<[clause |-> "C07.width", what |-> "readback", rb |-> MinOf(widrb),
+        \o (IF widrb = {} THEN <<>> ELSE <<[clause |-> "C07.width", what |-> "readback", rb |-> MinOf(widrb), lastpaths |-> lp,
                                            path |-> RbPath(rec, MinOf(widrb)), paths |-> {RbPath(rec, k) : k \in widrb}]>>)
-        \o (IF illreg = {} THEN <<>> ELSE <<[clause |-> "C07.welltyped", what |-> "reg", regs |-> {rec.regs[k].n : k \in illreg}]>>)
-        \o (IF illcell = {} THEN <<>> ELSE <<[clause |-> "C07.pool_welltyped", cell |-> MinOf(illcell)]>>)
-        \o (IF widcell = {} THEN <<>> ELSE <<[clause |-> "C07.pool_width", cell |-> MinOf(widcell)]>>)
+        \o (IF illreg = {} THEN <<>> ELSE <<[clause |-> "C07.welltyped", what |-> "reg", regs |-> {rec.regs[k].n : k \in illreg}, lastpaths |-> lp]>>)
+        \o (IF illcell = {} THEN <<>> ELSE <<[clause |-> "C07.pool_welltyped", cell |-> MinOf(illcell), lastpaths |-> lp]>>)
+        \o (IF widcell = {} THEN <<>> ELSE <<[clause |-> "C07.pool_width", cell |-> MinOf(widcell), lastpaths |-> lp]>>)
         \o ValueClauses(rec, (1..Len(rec.regs)) \ illreg, allrb \ (illrb \cup widrb), illcell = {} /\ widcell = {})
 
 Verdict(rec) == IF rec.t = "h" THEN HVerdict(rec) ELSE PVerdict(rec)
